@@ -4,10 +4,12 @@ import (
 	"fmt"
 	"strings"
 	"testing"
+	"time"
 
 	erpc "github.com/henrylee2cn/erpc/v6"
 
 	"simrt"
+	"verif/simnet"
 	"verif/world"
 )
 
@@ -157,8 +159,13 @@ func runC09(t *testing.T, seed uint64, m *Mask) *Report {
 	}
 	concurrent := r.Chance(0.5)
 	vetoRate := 0.35
+	// redial sub-space: the client dials with a redial budget and the connection is cut while messages are
+	// issued, so a message may be written again on the new connection.  Only the "at most once per stage"
+	// clause is judged there (whether calls survive a loss belongs to C13, including its known finding).
+	redial := r.Chance(0.15)
+	cutYield := r.Intn(60)
 	rep := &Report{NOps: len(msgs)}
-	rep.Cell = proto
+	rep.Cell = fmt.Sprintf("%s,redial=%v", proto, redial)
 	var topo []string
 
 	out := world.Run(t, opt, func(e *world.Env) {
@@ -248,9 +255,24 @@ func runC09(t *testing.T, seed uint64, m *Mask) *Report {
 		// between them a plugin that only takes (fake) time after a call or push frame was written: the reply
 		// may then arrive while the caller is still in its post-write stage
 		cliSlow := &world.Slow{Env: e, P: []float64{0, 0.4, 0.9}[e.Gen.Intn(3)], PostLaunch: true}
-		cli := e.NewPeer("cli", erpc.PeerConfig{}, cliRec, cliSlow, cliRec2)
+		ccfg := erpc.PeerConfig{}
+		if redial {
+			ccfg.RedialTimes, ccfg.RedialInterval = 3, 10*time.Millisecond
+		}
+		cli := e.NewPeer("cli", ccfg, cliRec, cliSlow, cliRec2)
 		pf := world.ProtoFunc(proto)
-		sess, _, ca, _ := e.ServePair(cli, srv, pf, pf)
+		var sess erpc.Session
+		var ca *simnet.Conn
+		if redial {
+			e.Serve(srv, "10.9.0.1:9000", pf)
+			var st *erpc.Status
+			if sess, st = cli.Dial("10.9.0.1:9000", pf); !st.OK() {
+				e.Fail("infra-dial-failed", "dial: %v", st)
+				return
+			}
+		} else {
+			sess, _, ca, _ = e.ServePair(cli, srv, pf, pf)
+		}
 		// expected server-side trace per message
 		expect := func(mm *msg) (srvTrace []string, handlerRuns bool, vetoStatus bool) {
 			rt := routes[mm.route]
@@ -358,9 +380,12 @@ func runC09(t *testing.T, seed uint64, m *Mask) *Report {
 			}
 			mm.op = op
 			e.OpByTag[op.Tag] = op
-			before := len(ca.Sent())
+			before := 0
+			if ca != nil {
+				before = len(ca.Sent())
+			}
 			e.Issue(sess, world.Routes{}, op, nil)
-			if v := vetoOf[mm.tag]; strings.HasPrefix(v, "c") && !concurrent {
+			if v := vetoOf[mm.tag]; strings.HasPrefix(v, "c") && !concurrent && ca != nil {
 				if len(ca.Sent()) != before {
 					e.Fail("C09/vetoed-message-was-written", "client plugin %s vetoed message %s but %d bytes went on the wire", v, mm.tag, len(ca.Sent())-before)
 				}
@@ -371,6 +396,41 @@ func runC09(t *testing.T, seed uint64, m *Mask) *Report {
 			if !m.opDropped(mm.idx) {
 				live = append(live, mm)
 			}
+		}
+		if redial {
+			simrt.GoNamed("cutter", func() {
+				simrt.YieldN(cutYield)
+				for j := len(e.Net.Conns) - 1; j >= 0; j-- {
+					if c := e.Net.Conns[j]; !c.IsClosed() && !c.IsBroken() {
+						c.CutNow()
+						break
+					}
+				}
+			})
+			for _, mm := range live {
+				mm := mm
+				simrt.GoNamed("caller", func() { run(mm) })
+			}
+			simrt.WaitQuiescent()
+			// at most once per (plugin, stage, message), on both sides
+			cnt := map[string]int{}
+			for _, pe := range e.Obs.Plugins {
+				switch pe.Stage {
+				case "PreReadHeader", "PostAccept", "PostDial", "PostRedial", "PostDisconnect":
+					continue
+				}
+				if pe.Tag == "" {
+					continue
+				}
+				k := pe.Peer + " " + pe.Plugin + "/" + pe.Stage + " for message " + pe.Tag
+				cnt[k]++
+				if cnt[k] == 2 {
+					e.Fail("C09/hook-fired-twice", "proto=%s redial=true: %s fired more than once", proto, k)
+				}
+			}
+			e.Probe("c09-redial-subspace")
+			e.CloseAll()
+			return
 		}
 		if concurrent {
 			done := 0
